@@ -121,6 +121,14 @@ def check_order(c, repo):
     c.need(len(cl) == 1, 'spawn.close: ptyproc.close() not found')
     ok = len(al) >= 1 and g.dominated_by(al[0][0], {cl[0][0]})[0] and g.dominated_by(g.exit, {al[0][0]})[0]
     c.check(ok, f, al[0][1] if al else cl[0][1], 'close() refreshes the status via isalive() after the pty was closed, on every path', tag='close-refresh')
+    f = repo.func('pty_spawn:spawn.read_nonblocking')
+    hs = [h for h in iter_nodes(f.node) if isinstance(h, ast.ExceptHandler) and norm(h.type) == 'EOF']
+    c.need(len(hs) >= 2, 'spawn.read_nonblocking: EOF handlers not found')
+    for h in hs:
+        first = h.body[0] if h.body else None
+        ok = isinstance(first, ast.Expr) and isinstance(first.value, ast.Call) and callee_last(first.value) == 'isalive' and ctext(first.value.func.value, f) == 'self'
+        c.check(ok, f, h, 'a read that hits EOF refreshes the exit status (self.isalive()) before it returns / re-raises', witness=norm(first) if first is not None else 'empty handler',
+                kind='ast', tag='eof-refresh:L%s' % hs.index(h))
     f = repo.func('run:run')
     g = f.cfg
     closes = [n for n, k in cfg_nodes_with_call(f, lambda k: callee_last(k) == 'close')]
@@ -198,6 +206,7 @@ MUTANTS = [
     ('close-no-refresh', 'pty_spawn', "        self.isalive()  # Update exit status from ptyproc\n", "", 'D2'),
     ('run-exit-before-close', 'run', "        child.close()\n        return (child_result, child.exitstatus)", "        status = child.exitstatus\n        child.close()\n        return (child_result, child.exitstatus if status is None else status)", 'D2'),
     ('run-signalstatus', 'run', "        return (child_result, child.exitstatus)", "        return (child_result, child.exitstatus or child.signalstatus)", 'D2'),
+    ('eof-no-refresh', 'pty_spawn', "            except EOF:\n                # Maybe the child is dead: update some attributes in that case\n                self.isalive()\n                raise", "            except EOF:\n                raise", 'D2'),
     ('popen-zero-signal', 'popen_spawn', "        if status >= 0:", "        if status > 0:", 'D3'),
     ('popen-sign-kept', 'popen_spawn', "            self.signalstatus = -status", "            self.signalstatus = status", 'D3'),
     ('terminate-waits', 'pty_spawn', "                self.kill(signal.SIGKILL)\n                time.sleep(self.delayafterterminate)\n                if not self.isalive():\n                    return True\n                else:\n                    return False", "                self.kill(signal.SIGKILL)\n                self.ptyproc.wait()\n                return True", 'D4'),
